@@ -991,3 +991,70 @@ Lemma registry_kept_7797_instance :
   fst (step w0 (CallJwsSign (K7797 true) PNone RAbsent [pname "HS256"])) = VUnit (Ok tt) /\
   fst (step w0 (CallJwsSign (K7797 true) PNone RAbsent [pname "HS512"])) = VUnit unsupported.
 Proof. vm_compute. repeat split; reflexivity. Qed.
+
+(* ---------- the gates do not see the message ---------- *)
+(* The only stages that receive the plaintext / payload / aad are the cryptographic ones
+   (content_enc, content_dec, decompress, jws_crypto).  Whatever they are, and whatever the
+   key management stage returns as long as it does not fail first, a failing gate is the
+   failure of the whole operation, with the gate's error: the allow-list verdict of
+   encrypt / decrypt / sign is a function of (header names, algorithms, registry) only. *)
+Lemma gate_failure_is_op_failure :
+  (forall X crypto w k a r algs e,
+     jws_entry w k a r algs = Err e -> jws_op X crypto w k a r algs = Err e) /\
+  (forall K X km ce w a r enc algs zip e,
+     (forall en rs, exists k, km en rs = Ok k) ->
+     jwe_entry w a r enc algs zip = Err e -> jwe_encrypt_op K X km ce w a r enc algs zip = Err e) /\
+  (forall K M X km cd dz w a r enc algs zip e,
+     (forall en rs, exists k, km en rs = Ok k) -> (forall en k, exists m, cd en k = Ok m) ->
+     jwe_entry w a r enc algs zip = Err e -> jwe_decrypt_op K M X km cd dz w a r enc algs zip = Err e).
+Proof.
+  split; [intros X crypto w k a r algs e H; unfold jws_op; rewrite H; reflexivity|].
+  split.
+  - intros K X km ce w a r enc algs zip e T H. unfold jwe_entry in H. unfold jwe_encrypt_op.
+    destruct (jwe_get_enc w (jwe_select w a r) enc) as [en|x]; simpl in *; [|inversion H; reflexivity].
+    destruct (gate_all (jwe_recipient_gate w (jwe_select w a r) enc zip) algs) as [rs|x]; simpl in *; [|inversion H; reflexivity].
+    destruct (T en rs) as [k Ek]. rewrite Ek. simpl.
+    destruct (jwe_zip_gate w (jwe_select w a r) zip) as [z|x]; simpl in *; [discriminate | inversion H; reflexivity].
+  - intros K M X km cd dz w a r enc algs zip e T1 T2 H. unfold jwe_entry in H. unfold jwe_decrypt_op.
+    destruct (jwe_get_enc w (jwe_select w a r) enc) as [en|x]; simpl in *; [|inversion H; reflexivity].
+    destruct (gate_all (jwe_recipient_gate w (jwe_select w a r) enc zip) algs) as [rs|x]; simpl in *; [|inversion H; reflexivity].
+    destruct (T1 en rs) as [k Ek]. rewrite Ek. simpl.
+    destruct (T2 en k) as [m Em]. rewrite Em. simpl.
+    destruct (jwe_zip_gate w (jwe_select w a r) zip) as [z|x]; simpl in *; [discriminate | inversion H; reflexivity].
+Qed.
+
+(* two messages = two content stages: same outcome whenever a gate refuses; and an
+   operation succeeds on one message only if the gates pass (for every message) *)
+Lemma gate_independent_of_message :
+  (forall K X km (ce1 ce2 : jwe_enc_row -> K -> option jwe_zip_row -> res X) w a r enc algs zip e,
+     (forall en rs, exists k, km en rs = Ok k) ->
+     jwe_entry w a r enc algs zip = Err e ->
+     jwe_encrypt_op K X km ce1 w a r enc algs zip = Err e /\
+     jwe_encrypt_op K X km ce2 w a r enc algs zip = Err e) /\
+  (forall K X km (ce1 ce2 : jwe_enc_row -> K -> option jwe_zip_row -> res X) w a r enc algs zip x,
+     jwe_encrypt_op K X km ce1 w a r enc algs zip = Ok x ->
+     exists t, jwe_entry w a r enc algs zip = Ok t /\
+               (forall e, jwe_encrypt_op K X km ce2 w a r enc algs zip <> Err e \/
+                          jwe_entry w a r enc algs zip <> Err e)) /\
+  (forall X (c1 c2 : list jws_alg_row -> res X) w k a r algs e,
+     jws_entry w k a r algs = Err e ->
+     jws_op X c1 w k a r algs = Err e /\ jws_op X c2 w k a r algs = Err e).
+Proof.
+  destruct gate_failure_is_op_failure as (J & E & D).
+  split.
+  - intros. split; apply E; assumption.
+  - split.
+    + intros K X km ce1 ce2 w a r enc algs zip x H.
+      destruct (jwe_encrypt_op_gated _ _ _ _ _ _ _ _ _ _ _ H) as [t Ht].
+      exists t. split; [exact Ht|]. intro e. right. rewrite Ht. discriminate.
+    + intros. split; apply J; assumption.
+Qed.
+
+(* instance: an unknown zip ("BOGUS") and a known but unlisted one (DEF) are refused by the
+   model call, which has no message argument at all *)
+Lemma gate_message_instance :
+  fst (step w0 (CallJwe PNone RAbsent (pname "A128GCM") [pname "dir"] (Some (pname "BOGUS")))) = VUnit unsupported /\
+  fst (step w0 (CallJwe (PList [pname "dir"; pname "A128GCM"]) RAbsent (pname "A128GCM") [pname "dir"] (Some (pname "DEF")))) = VUnit unsupported /\
+  fst (step w0 (CallJwe PNone (RFresh RcJwe (PList [pname "dir"; pname "A128GCM"])) (pname "A128GCM") [pname "dir"] (Some (pname "DEF")))) = VUnit unsupported /\
+  fst (step w0 (CallJwe PNone RAbsent (pname "A128GCM") [pname "dir"] (Some (pname "DEF")))) = VUnit (Ok tt).
+Proof. vm_compute. repeat split; reflexivity. Qed.
